@@ -1,5 +1,6 @@
 (* props/C13.v -- C13: tracklet validation decides the documented tracklet definition. *)
 From Geff Require Import Base GraphVal Reach Tracks TracksLemmas.
+From Geff Require Import TracksCyc.
 Open Scope Z_scope.
 Open Scope list_scope.
 
@@ -46,4 +47,47 @@ Proof.
   split.
   - repeat constructor; cbn; intuition discriminate.
   - intros e He. cbn in He. cbn. intuition (subst; cbn; auto).
+Qed.
+
+(* ---- the code's cycle test (nx.is_directed_acyclic_graph on the tracklet's subgraph), found missing from the model by replaying the
+   repository's own test inputs (DESIGN_NOTES/harvest.md).  invalid_tracklets_c = the validator with the test (the model the
+   correspondence now evaluates).  On a graph without closed walks -- the graphs the property quantifies over -- the test never fires,
+   so the model with the test decides the documented definition exactly as above. ---- *)
+Theorem C13_cycle_test_silent_on_acyclic : forall E NL, acyclic E ->
+  invalid_tracklets_c E NL = invalid_tracklets E NL.
+Proof. exact invalid_tracklets_c_acyclic. Qed.
+Print Assumptions C13_cycle_test_silent_on_acyclic.
+
+Theorem C13_iff_with_cycle_test : forall E NL, wf_labelled E NL -> acyclic E ->
+  (invalid_tracklets_c E NL = [] <-> L_spec E NL /\ C_spec E NL).
+Proof. exact tracklets_c_iff. Qed.
+Print Assumptions C13_iff_with_cycle_test.
+
+(* the cycle test is sound and complete for what it is meant to detect: it passes on every class of a graph without closed walks, and a
+   class in which every node has a predecessor inside the class (a directed cycle, a self-loop) is rejected *)
+Theorem C13_cycle_test_passes : forall E T, acyclic E -> is_dag (induced E T) T = true.
+Proof. exact is_dag_of_acyclic. Qed.
+Print Assumptions C13_cycle_test_passes.
+
+Theorem C13_cycle_rejected : forall E T r, In r T ->
+  (forall u, In u T -> exists p, In p T /\ In (p, u) E) -> check_class_c E T = false.
+Proof. exact cycle_class_rejected. Qed.
+Print Assumptions C13_cycle_rejected.
+
+(* non-vacuity: the harvested input (packages/geff/tests/test_validate/test_tracks.py, "Cycle in tracklet"): the 3-cycle 1->2->3->1
+   labelled as one tracklet passes every other test (it satisfies (L) and (C)) and is rejected by the cycle test alone; the chain
+   1->2->3 is acyclic and accepted by both. *)
+Example C13_cycle_nonvacuous :
+  invalid_tracklets [(1, 2); (2, 3); (3, 1)] [(1, 10); (2, 10); (3, 10)] = [] /\
+  invalid_tracklets_c [(1, 2); (2, 3); (3, 1)] [(1, 10); (2, 10); (3, 10)] = [10] /\
+  invalid_tracklets_c [(1, 2); (2, 3)] [(1, 10); (2, 10); (3, 10)] = [] /\
+  acyclic [(1, 2); (2, 3)].
+Proof.
+  repeat split; try (vm_compute; reflexivity).
+  intros u Hw.
+  assert (forall a b, walk [(1, 2); (2, 3)] a b -> a < b) as Hlt.
+  { intros a b H. induction H as [a b H|a w b H _ IH].
+    - cbn in H. destruct H as [H|[H|[]]]; inversion H; subst; reflexivity.
+    - cbn in H. destruct H as [H|[H|[]]]; inversion H; subst; eapply Z.lt_trans; try exact IH; reflexivity. }
+  apply Hlt in Hw. apply Z.lt_irrefl in Hw. exact Hw.
 Qed.
